@@ -5,7 +5,7 @@
  *       domains; every total length 235..262 with/without root dot; hyphen at every position
  * Contexts: is_ascii_domain, is_{822,5321,5322}_email("x@D", false), is_utf8_domain / is_6531_email.
  */
-#include "../mc/mc.h"
+#include "corpus.h"
 #include "../ref/ref_idn.h"
 #include <eav.h>
 #include <idn2.h>
@@ -188,6 +188,10 @@ static void l3_ulabel(long shard, void *arg) {
     }
 }
 
+static int L5PH;
+static void l5_emit(const unsigned char *s, size_t n, void *arg) { (void)arg; if (n > 2 && s[0] == 'x' && s[1] == '@') { check_domain("L5corpus", s + 2, n - 2); MC_ADD(C_L3, 1); } }
+static void l5_shard(long shard, void *arg) { (void)arg; corpus_run(L5PH, shard, l5_emit, NULL); }
+
 static int do_replay(void) {
     mc_replay_t r; if (mc_load_replay(mc_replay, &r)) return 2;
     mc_replay_hit = 0;
@@ -207,6 +211,9 @@ int main(int argc, char **argv) {
     mc_parallel("L3: label length 0..70 x position x 1..5 labels (+hyphen positions)", 5L * 5 * 71, l3_labels, NULL);
     mc_parallel("L3: total length 235..262 x last label 1..63 x root dot", 28, l3_total, NULL);
     mc_parallel("L3: U-label domains of 1..7 labels x 8..56 letters (2- and 3-byte) around the 253/255 limits", 7, l3_ulabel, NULL);
+    if (corpus_load()) return 2;
+    { static const int PH[] = { CP_LONGIDN, CP_ALTDOT, CP_LABELLEN };
+      for (unsigned i = 0; i < 3; i++) { L5PH = PH[i]; char nm5[80]; snprintf(nm5, sizeof nm5, "L5: %.60s", corpus_name(L5PH)); mc_parallel(nm5, corpus_shards(L5PH), l5_shard, NULL); } }
     int N = mc_thorough ? 9 : 7;
     memset(&L1E, 0, sizeof L1E);
     L1E.A = SIGC; L1E.nA = NSIGC; L1E.N = N; L1E.k = 3; L1E.fn = l1_cb;
